@@ -881,9 +881,17 @@ fn concrete(o: &Value) -> Object {
                 }
                 "nodp" => d.set("Filter", Object::Name(b"Crypt".to_vec())),
                 "arr" => {
+                    // "the element at the position of Crypt": Crypt leads the Filter array for even lengths and follows
+                    // ASCIIHexDecode for odd ones (lopdf's encrypt and decrypt accept it at any position; seeded change C05-a7)
                     parms.set("Name", Object::Name(n));
-                    d.set("Filter", Object::Array(vec![Object::Name(b"Crypt".to_vec()), Object::Name(b"ASCIIHexDecode".to_vec())]));
-                    d.set("DecodeParms", Object::Array(vec![Object::Dictionary(parms), Object::Null]));
+                    let (c, h) = (Object::Name(b"Crypt".to_vec()), Object::Name(b"ASCIIHexDecode".to_vec()));
+                    if o["len"].as_u64().unwrap() % 2 == 0 {
+                        d.set("Filter", Object::Array(vec![c, h]));
+                        d.set("DecodeParms", Object::Array(vec![Object::Dictionary(parms), Object::Null]));
+                    } else {
+                        d.set("Filter", Object::Array(vec![h, c]));
+                        d.set("DecodeParms", Object::Array(vec![Object::Null, Object::Dictionary(parms)]));
+                    }
                 }
                 _ => panic!("harness: crypt form {f}"),
             }
@@ -1080,8 +1088,15 @@ fn rand_doc(rng: &mut Rng, cfg: &Value) -> Document {
             3 => d.set("Filter", Object::Name(b"Crypt".to_vec())),
             _ => {
                 parms.set("Name", Object::Name(n));
-                d.set("Filter", Object::Array(vec![Object::Name(b"Crypt".to_vec()), Object::Name(b"ASCIIHexDecode".to_vec())]));
-                d.set("DecodeParms", Object::Array(vec![Object::Dictionary(parms), Object::Null]));
+                let (cr, h) = (Object::Name(b"Crypt".to_vec()), Object::Name(b"ASCIIHexDecode".to_vec()));
+                if rng.chance(1, 2) {
+                    d.set("Filter", Object::Array(vec![cr, h]));
+                    d.set("DecodeParms", Object::Array(vec![Object::Dictionary(parms), Object::Null]));
+                } else {
+                    // Crypt in second place, its parameters in the second element
+                    d.set("Filter", Object::Array(vec![h, cr]));
+                    d.set("DecodeParms", Object::Array(vec![Object::Null, Object::Dictionary(parms)]));
+                }
                 c = content("hex", c.len(), true);
             }
         }
